@@ -32,6 +32,11 @@ func VerifH_SYS_C18() {
 	cli, err := NewReconnectClient(b, WithReconnectWait(unit, 4*unit), WithRetryClient(rc))
 	verifAssert(err == nil, "SYS.new_client")
 	kinds := []int{rkPub1, rkPub2, rkSub, rkUnsub}
+	q2 := verifParam("q2", 0) == 1 // C02 variant: QoS 2 exchanges against both receiver methods, exactly-once oracle
+	if q2 {
+		kinds = []int{rkPub2, rkPub1}
+		b.methodB = verifChoice("q2method", 2) == 1
+	}
 	s := &sysRun{b: b, cli: cli}
 	for i := 0; i < nreq; i++ {
 		s.reqs = append(s.reqs, sysReq{tag: i + 1, kind: kinds[verifChoice("kind", len(kinds))]})
@@ -40,6 +45,10 @@ func VerifH_SYS_C18() {
 		verifReach("quiescent")
 		if s.connErr != nil {
 			return
+		}
+		if q2 {
+			s.checkC02()
+			s.checkC12()
 		}
 		verifLock()
 		defer verifUnlock()
